@@ -279,6 +279,7 @@ class Wsdl11(XmlSchema):
         cb_port_type = self._add_callbacks(service, root, types,
                                                               service_name, url)
         applied_service_name = self._get_applied_service_name(service)
+        pref_tns = self.interface.get_namespace_prefix(self.interface.tns)
 
         port_binding_names = []
         port_type_list = service.get_port_types()
@@ -316,14 +317,14 @@ class Wsdl11(XmlSchema):
 
             op_input = SubElement(operation, WSDL11("input"))
             op_input.set('name', method.in_message.get_element_name())
-            op_input.set('message',
-                          method.in_message.get_element_name_ns(self.interface))
+            op_input.set('message', '%s:%s' % (pref_tns,
+                                      method.in_message.get_element_name()))
 
             if (not method.is_callback) and (not method.is_async):
                 op_output = SubElement(operation, WSDL11("output"))
                 op_output.set('name', method.out_message.get_element_name())
-                op_output.set('message', method.out_message.get_element_name_ns(
-                                                                self.interface))
+                op_output.set('message', '%s:%s' % (pref_tns,
+                                     method.out_message.get_element_name()))
 
                 if not (method.faults is None):
                     for f in method.faults:
